@@ -97,13 +97,19 @@ def multi_traces(tid0, rng, gen_kw, cfg, resets, steps_rng):
               graph_initializer=builder_fn,
               graph_updater_config=esession._updater_config(cfg["rm_machines"], cfg["rm_jobs"]),
               reward_function_config=esession._reward_config(cfg["reward"]), use_padding=True)
+    from job_shop_lib import dispatching as _D
+    mfilt = cfg.get("multi_filter", "dom")
+    fn = {"dom": _D.filter_dominated_operations, "idle": _D.filter_non_idle_machines,
+          "immmach": _D.filter_non_immediate_machines, "immops": _D.filter_non_immediate_operations}[mfilt]
+    if mfilt != "dom" or rng.random() < 0.5:
+        kw["ready_operations_filter"] = fn
     out, env = _outcome(lambda: MultiJobShopGraphEnv(**kw))
     jobs = gen_kw["num_jobs"] if isinstance(gen_kw["num_jobs"], tuple) else (gen_kw["num_jobs"],) * 2
     machines = gen_kw["num_machines"] if isinstance(gen_kw["num_machines"], tuple) else (gen_kw["num_machines"],) * 2
     mpo = gen_kw.get("machines_per_operation", 1)
     flexible_gen = (mpo if isinstance(mpo, int) else mpo[1]) > 1 or bool(gen_kw.get("allow_recirculation", False))
     ctor = {"updater": "ResidualGraphUpdater", "rm_machines": bool(cfg["rm_machines"]),
-            "rm_jobs": bool(cfg["rm_jobs"]), "reward": cfg["reward"], "filter": "filter_dominated_operations",
+            "rm_jobs": bool(cfg["rm_jobs"]), "reward": cfg["reward"], "filter": fn.__name__,
             "use_padding": True}
     hdr = {"generator": {"jobs": list(jobs), "machines": list(machines)}, "ctor": ctor}
     traces = []
@@ -114,7 +120,7 @@ def multi_traces(tid0, rng, gen_kw, cfg, resets, steps_rng):
                                declared_shapes={})
         s._ev({"a": "MultiResetFailed", "out": "ctor:" + out, "flexible_generator": flexible_gen})
         return [s.trace()]
-    c2 = dict(cfg, space_owner=env, filt=["dom"])
+    c2 = dict(cfg, space_owner=env, filt=[mfilt])
     for ep in range(resets):
         tid = tid0 + ep
         out, r = _outcome(env.reset)
@@ -186,6 +192,7 @@ def c18():
     for gi, gk in enumerate(gens):
         for rep in range(_n(chk, 2, 8)):
             cfg = random_env_cfg(rng, True)
+            cfg["multi_filter"] = ["dom", "dom", "idle", "immmach", "immops"][(gi + rep) % 5]
             gk2 = dict(gk, seed=chk.seed * 100 + gi * 10 + rep)
             ts = multi_traces(n0, rng, gk2, cfg, resets=_n(chk, 15, 40), steps_rng=rng)
             n0 += len(ts) + 1
